@@ -444,7 +444,22 @@ type cpos struct {
 
 // touched: root children (by path element) that earlier ops of the history stored; they are raw nodes
 // without loaded children, so they are not edited from inside.
-func alphabet(m *tbin.Val, s *tbin.Shape, cfg config, touched map[string]bool) []op {
+func alphabet(m *tbin.Val, s *tbin.Shape, cfg config, touched map[string]bool, initial *tbin.Val) []op {
+	// a container child that was loaded recursively keeps its loaded children (Next) even after its Node is
+	// cleared or replaced: re-inserting under its key is the excluded "Node and Next disagree" scenario
+	loadedContainer := func(at []tutil.PE, pe tutil.PE) bool {
+		if !cfg.recurse {
+			return false
+		}
+		cur := initial
+		for _, e := range at {
+			if cur = childOf(cur, e); cur == nil {
+				return false
+			}
+		}
+		c := childOf(cur, pe)
+		return c != nil && !isLeaf(c)
+	}
 	buf := tbin.Bytes(m)
 	var cps []cpos
 	if !isLeaf(m) {
@@ -487,7 +502,7 @@ func alphabet(m *tbin.Val, s *tbin.Shape, cfg config, touched map[string]bool) [
 		switch cp.v.T {
 		case tbin.STRUCT:
 			for _, id := range []int16{7, 256, 300} {
-				if cp.v.FieldByID(id) == nil {
+				if cp.v.FieldByID(id) == nil && !loadedContainer(cp.path, tutil.PE{K: 'f', ID: id}) {
 					ops = append(ops, op{Kind: "insert", At: cp.path, PE: tutil.PE{K: 'f', ID: id}, Val: tbin.I32v(int32(id) * 3), Trig: fmt.Sprintf("absent-in:%s,id%s", k, idClass(id))})
 				}
 			}
@@ -700,7 +715,7 @@ func run(val value, cfg config, maxDepth int, all []value) core.Result {
 					touched[po.PE.String()] = true
 				}
 			}
-			for _, o := range alphabet(h.model, val.s, cfg, touched) {
+			for _, o := range alphabet(h.model, val.s, cfg, touched, val.v) {
 				nm := applyModel(h.model, o)
 				if nm == nil {
 					continue
